@@ -95,6 +95,8 @@ def gen_row(rng, i, rich=True):
         row['obj'] = {'p': scalar(rng, rich), 'q': nested(rng, 2)}
     if rng.random() < 0.5:
         row['ts'] = gen_ts(rng)
+    if rng.random() < 0.04:
+        row['pad'] = 'p' * rng.choice([1100, 1500, 5000])      # a line longer than the reader's initial buffer
     if rng.random() < 0.3:
         for name in rng.sample(TRICKY, rng.randint(1, 3)):
             row[name] = small_int(rng)
